@@ -1,7 +1,11 @@
 package main
 
 import (
+	"bytes"
+	"encoding/hex"
 	"fmt"
+	"runtime"
+	"sort"
 	"strconv"
 	"strings"
 	"sync"
@@ -12,47 +16,576 @@ import (
 	"verifharness/hx"
 )
 
-// raceArea: several goroutines register, unregister, merge, toggle, batch and notify concurrently on two notifiers
-// sharing five targets. Judged here (no Lean model of interleavings): under the -race build any race report kills the
-// process (GORACE=halt_on_error=1 -> crash line); a notification delivered twice to one target, a deadlock (timeout),
-// or a panic escaping the notifier is a FAIL.
+// raceArea: the concurrent oracle, meant for the -race build (GORACE=halt_on_error=1: a race report kills the process
+// and the check reports the crash of that line).  No Lean model runs here; the judge is the CONCLUSION of the theorems
+// C17.concurrent_registry_linearizable / notify_delivers_snapshot / batch_delivers_snapshot:
+//
+//   - linearizability rounds: from a quiescent registry (equal to the reference), 2-4 goroutines each run a short program
+//     of exported calls concurrently; every call is stamped at call and return, every callback is attributed to the call
+//     that made it.  The round passes iff there is ONE order of all calls -- respecting each goroutine's program order and
+//     real time (a call that returned before another was made comes first) -- in which the sequential reference (`ref`,
+//     the same rules as the Lean model; the deterministic streams tie the model to the code) gives, for every call,
+//     exactly what was observed: the targets of every Notify (each once, non-increasing in the reference priority, the
+//     normalised name, the data passed through), the targets of every BatchMode broadcast, the values of Enabled() and
+//     BatchLevel(), the maps copied out by RegisterFromNotifier, and in the end the three maps, the current batch, the
+//     level and the flag of the real notifier (white-box dump);
+//   - a free-running phase with properly paired StartBatch/EndBatch per goroutine: at the end BatchMode(true) and
+//     BatchMode(false) counts are equal for every target, no delivery is duplicated, one recovery report per panic.
+//
+// A deadlock (60 s), a panic escaping the notifier, or any judge failure is a FAIL line.
 type raceArea struct{}
 
 const raceTargets = 6
 
-type rTarget struct {
-	mu    sync.Mutex
-	seen  map[uint64]int
-	dup   atomic.Int64
-	calls atomic.Int64
-	boom  bool
-}
-
-func (t *rTarget) HandleNotification(_ string, data, _ any) {
-	t.calls.Add(1)
-	id, _ := data.(uint64)
-	t.mu.Lock()
-	t.seen[id]++
-	if t.seen[id] > 1 {
-		t.dup.Add(1)
-	}
-	t.mu.Unlock()
-	if t.boom {
-		panic("boom")
-	}
-}
-
-type rBatchTarget struct {
-	rTarget
-	batches atomic.Int64
-}
-
-func (t *rBatchTarget) BatchMode(bool) { t.batches.Add(1) }
-
 func (raceArea) Gen(r *hx.Rng, n int, _ string, emit func(string)) {
 	for i := 0; i < n; i++ {
-		emit(fmt.Sprintf("stress %d %d %d", r.U64()%1000000, r.Range(3, 8), r.Range(200, 1500)))
+		emit(fmt.Sprintf("stress %d %d %d", r.U64()%1000000, r.Range(2, 4), r.Range(60, 160)))
 	}
+}
+
+// ---------------------------------------------------------------------------------------------- reference
+
+type ref struct {
+	prod    map[string]map[int]int
+	names   map[int]map[string]bool
+	batch   map[int]bool
+	current []int
+	level   int
+	enabled bool
+}
+
+func newRef() *ref {
+	return &ref{prod: map[string]map[int]int{}, names: map[int]map[string]bool{}, batch: map[int]bool{}, enabled: true}
+}
+
+func (r *ref) clone() *ref {
+	c := newRef()
+	for n, set := range r.prod {
+		m := make(map[int]int, len(set))
+		for t, p := range set {
+			m[t] = p
+		}
+		c.prod[n] = m
+	}
+	for t, nm := range r.names {
+		m := make(map[string]bool, len(nm))
+		for n := range nm {
+			m[n] = true
+		}
+		c.names[t] = m
+	}
+	for t := range r.batch {
+		c.batch[t] = true
+	}
+	c.current = append([]int(nil), r.current...)
+	c.level, c.enabled = r.level, r.enabled
+	return c
+}
+
+func (r *ref) register(t, prio int, names []string) {
+	var ns []string
+	for _, nm := range names {
+		if s := segs(nm); len(s) > 0 {
+			ns = append(ns, strings.Join(s, "."))
+		}
+	}
+	if len(ns) == 0 {
+		return
+	}
+	if isBatch(t) {
+		r.batch[t] = true
+	}
+	if r.names[t] == nil {
+		r.names[t] = map[string]bool{}
+	}
+	for _, n := range ns {
+		if r.prod[n] == nil {
+			r.prod[n] = map[int]int{}
+		}
+		r.prod[n][t] = prio
+		r.names[t][n] = true
+	}
+}
+
+func (r *ref) unregister(t int) {
+	nm, ok := r.names[t]
+	if !ok {
+		return
+	}
+	delete(r.batch, t)
+	for n := range nm {
+		if set, ok2 := r.prod[n]; ok2 {
+			delete(set, t)
+			if len(set) == 0 {
+				delete(r.prod, n)
+			}
+		}
+	}
+	delete(r.names, t)
+}
+
+func (r *ref) merge(o *ref) {
+	for t := range o.batch {
+		r.batch[t] = true
+	}
+	for n, set := range o.prod {
+		if r.prod[n] == nil {
+			r.prod[n] = map[int]int{}
+		}
+		for t, p := range set {
+			r.prod[n][t] = p
+		}
+	}
+	for t, nm := range o.names {
+		if r.names[t] == nil {
+			r.names[t] = map[string]bool{}
+		}
+		for n := range nm {
+			r.names[t][n] = true
+		}
+	}
+}
+
+func (r *ref) reset() {
+	r.prod, r.names, r.batch = map[string]map[int]int{}, map[int]map[string]bool{}, map[int]bool{}
+	r.current, r.level = nil, 0
+}
+
+func (r *ref) startBatch() []int {
+	if !r.enabled {
+		return nil
+	}
+	r.level++
+	if r.level == 1 && len(r.batch) > 0 {
+		r.current = r.current[:0:0]
+		for t := range r.batch {
+			r.current = append(r.current, t)
+		}
+		sort.Ints(r.current)
+		return r.current
+	}
+	return nil
+}
+
+func (r *ref) endBatch() []int {
+	if r.enabled && r.level > 0 {
+		r.level--
+		if r.level == 0 {
+			t := r.current
+			r.current = nil
+			return t
+		}
+	}
+	return nil
+}
+
+func (r *ref) notify(name string) map[int]int {
+	if !r.enabled {
+		return nil
+	}
+	s := segs(name)
+	tg := map[int]int{}
+	for k := 1; k <= len(s); k++ {
+		if set, ok := r.prod[strings.Join(s[:k], ".")]; ok {
+			for t, p := range set {
+				tg[t] = p
+			}
+		}
+	}
+	return tg
+}
+
+// dump renders the reference like the white-box accessor VerifDump renders the real notifier.
+func (r *ref) dump(full bool) string {
+	var prod []string
+	for name, set := range r.prod {
+		if len(set) == 0 {
+			continue
+		}
+		ids := make([]int, 0, len(set))
+		for t := range set {
+			ids = append(ids, t)
+		}
+		sort.Ints(ids)
+		parts := make([]string, len(ids))
+		for i, id := range ids {
+			parts[i] = fmt.Sprintf("%d:%d", id, set[id])
+		}
+		prod = append(prod, hex.EncodeToString([]byte(name))+"="+strings.Join(parts, ","))
+	}
+	sort.Strings(prod)
+	var tids []int
+	for t, nm := range r.names {
+		if len(nm) > 0 {
+			tids = append(tids, t)
+		}
+	}
+	sort.Ints(tids)
+	nameL := make([]string, len(tids))
+	for i, id := range tids {
+		var l []string
+		for n := range r.names[id] {
+			l = append(l, hex.EncodeToString([]byte(n)))
+		}
+		sort.Strings(l)
+		nameL[i] = fmt.Sprintf("%d=%s", id, strings.Join(l, ","))
+	}
+	ints := func(l []int) string {
+		l = append([]int(nil), l...)
+		sort.Ints(l)
+		s := make([]string, len(l))
+		for i, v := range l {
+			s[i] = strconv.Itoa(v)
+		}
+		return strings.Join(s, ",")
+	}
+	var b []int
+	for t := range r.batch {
+		b = append(b, t)
+	}
+	if !full {
+		return fmt.Sprintf("P[%s] N[%s] B[%s]", strings.Join(prod, " "), strings.Join(nameL, " "), ints(b))
+	}
+	e := 0
+	if r.enabled {
+		e = 1
+	}
+	return fmt.Sprintf("P[%s] N[%s] B[%s] C[%s] L%d E%d", strings.Join(prod, " "), strings.Join(nameL, " "), ints(b),
+		ints(r.current), r.level, e)
+}
+
+// ---------------------------------------------------------------------------------------------- instrumentation
+
+func goid() int64 {
+	var buf [64]byte
+	b := buf[:runtime.Stack(buf[:], false)]
+	b = bytes.TrimPrefix(b, []byte("goroutine "))
+	i := bytes.IndexByte(b, ' ')
+	id, _ := strconv.ParseInt(string(b[:i]), 10, 64)
+	return id
+}
+
+type hcall struct {
+	t    int
+	name string
+}
+
+type bcall struct {
+	t     int
+	start bool
+}
+
+// opRec is one exported call made by a goroutine, with what was observed.
+type opRec struct {
+	kind      string // reg unreg notify start end enable reset merge enabled level copyout
+	t, prio   int
+	names     []string
+	flag      bool
+	data      any
+	call, ret int64
+	handles   []hcall
+	batches   []bcall
+	badData   bool
+	boolRes   bool
+	intRes    int
+	dumpRes   string
+}
+
+func (o *opRec) String() string {
+	s := fmt.Sprintf("%s[%d..%d]", o.kind, o.call, o.ret)
+	switch o.kind {
+	case "reg":
+		s += fmt.Sprintf("(t%d,%d,%q)", o.t, o.prio, o.names)
+	case "unreg":
+		s += fmt.Sprintf("(t%d)", o.t)
+	case "notify":
+		s += fmt.Sprintf("(%q)->%v", o.names[0], o.handles)
+	case "start", "end":
+		s += fmt.Sprintf("->%v", o.batches)
+	case "enable":
+		s += fmt.Sprintf("(%v)", o.flag)
+	case "enabled":
+		s += fmt.Sprintf("->%v", o.boolRes)
+	case "level":
+		s += fmt.Sprintf("->%d", o.intRes)
+	}
+	return s
+}
+
+type raceWorld struct {
+	cur     sync.Map // goroutine id -> *opRec: the call that goroutine is inside
+	stray   atomic.Int64
+	recs    atomic.Int64
+	booms   atomic.Int64
+	trueCt  [raceTargets]atomic.Int64
+	falseCt [raceTargets]atomic.Int64
+	dupMu   sync.Mutex
+	seen    map[[2]int64]bool // (call stamp, target): a delivery of that Notify to that target
+	dups    atomic.Int64
+}
+
+type raceT struct {
+	w  *raceWorld
+	id int
+}
+
+func (t *raceT) HandleNotification(name string, data, _ any) {
+	if v, ok := t.w.cur.Load(goid()); ok {
+		o := v.(*opRec)
+		o.handles = append(o.handles, hcall{t: t.id, name: name})
+		if !same(data, o.data) {
+			o.badData = true
+		}
+		t.w.dupMu.Lock()
+		k := [2]int64{o.call, int64(t.id)}
+		if t.w.seen[k] {
+			t.w.dups.Add(1)
+		}
+		t.w.seen[k] = true
+		t.w.dupMu.Unlock()
+	} else {
+		t.w.stray.Add(1)
+	}
+	if panics(t.id) {
+		t.w.booms.Add(1)
+		panic(fmt.Sprintf("target %d", t.id))
+	}
+}
+
+type raceBT struct{ raceT }
+
+func (t *raceBT) BatchMode(start bool) {
+	if start {
+		t.w.trueCt[t.id].Add(1)
+	} else {
+		t.w.falseCt[t.id].Add(1)
+	}
+	if v, ok := t.w.cur.Load(goid()); ok {
+		o := v.(*opRec)
+		o.batches = append(o.batches, bcall{t: t.id, start: start})
+	} else {
+		t.w.stray.Add(1)
+	}
+	if panics(t.id) {
+		t.w.booms.Add(1)
+		panic(fmt.Sprintf("target %d batch", t.id))
+	}
+}
+
+var raceNames = []string{"a", "a.b", "a.bc", "a.b.c", "b", "..a..b.", "foo.bar", "foo.barn", "", "a...b"}
+
+func genRaceOp(r *hx.Rng) *opRec {
+	switch x := r.Intn(100); {
+	case x < 24:
+		return &opRec{kind: "reg", t: r.Intn(raceTargets), prio: hx.Pick(r, []int{0, 0, 1, 2, -1, 1 << 62, -(1 << 62)}),
+			names: []string{hx.Pick(r, raceNames), hx.Pick(r, raceNames)}}
+	case x < 52:
+		return &opRec{kind: "notify", names: []string{hx.Pick(r, raceNames)}, data: int(r.Intn(1000))}
+	case x < 62:
+		return &opRec{kind: "unreg", t: r.Intn(raceTargets)}
+	case x < 69:
+		return &opRec{kind: "merge"}
+	case x < 74:
+		return &opRec{kind: "enable", flag: r.Intn(4) != 0}
+	case x < 76:
+		return &opRec{kind: "reset"}
+	case x < 83:
+		return &opRec{kind: "start"}
+	case x < 90:
+		return &opRec{kind: "end"}
+	case x < 93:
+		return &opRec{kind: "enabled"}
+	case x < 96:
+		return &opRec{kind: "level"}
+	default:
+		return &opRec{kind: "copyout"}
+	}
+}
+
+type raceSys struct {
+	w     *raceWorld
+	n     *notifier.Notifier // the notifier under test
+	other *notifier.Notifier // quiescent source of RegisterFromNotifier
+	oref  *ref
+	ts    [raceTargets]notifier.Target
+	ids   map[notifier.Target]int
+	clock atomic.Int64
+}
+
+func newRaceSys() *raceSys {
+	s := &raceSys{w: &raceWorld{seen: map[[2]int64]bool{}}, ids: map[notifier.Target]int{}, oref: newRef()}
+	h := func(error) { s.w.recs.Add(1) }
+	s.n, s.other = notifier.New(h), notifier.New(h)
+	for i := range s.ts {
+		if isBatch(i) {
+			s.ts[i] = &raceBT{raceT{w: s.w, id: i}}
+		} else {
+			s.ts[i] = &raceT{w: s.w, id: i}
+		}
+		s.ids[s.ts[i]] = i
+	}
+	s.other.Register(s.ts[4], 3, "a", "b.x")
+	s.oref.register(4, 3, []string{"a", "b.x"})
+	s.other.Register(s.ts[0], -2, "a.b")
+	s.oref.register(0, -2, []string{"a.b"})
+	return s
+}
+
+func (s *raceSys) idOf(t notifier.Target) int { return s.ids[t] }
+
+// exec performs one call on the real notifier, stamped.
+func (s *raceSys) exec(o *opRec) {
+	g := goid()
+	s.w.cur.Store(g, o)
+	o.call = s.clock.Add(1)
+	switch o.kind {
+	case "reg":
+		s.n.Register(s.ts[o.t], o.prio, o.names...)
+	case "unreg":
+		s.n.Unregister(s.ts[o.t])
+	case "notify":
+		s.n.NotifyWithData(o.names[0], o.data, s)
+	case "merge":
+		s.n.RegisterFromNotifier(s.other)
+	case "enable":
+		s.n.SetEnabled(o.flag)
+	case "reset":
+		s.n.Reset()
+	case "start":
+		s.n.StartBatch()
+	case "end":
+		s.n.EndBatch()
+	case "enabled":
+		o.boolRes = s.n.Enabled()
+	case "level":
+		o.intRes = s.n.BatchLevel()
+	case "copyout":
+		fresh := notifier.New(nil)
+		fresh.RegisterFromNotifier(s.n)
+		d := fresh.VerifDump(s.idOf)
+		o.dumpRes = d[:strings.Index(d, " C[")]
+	}
+	o.ret = s.clock.Add(1)
+	s.w.cur.Delete(g)
+}
+
+// apply performs the call on the reference and says whether the observation agrees.
+func (s *raceSys) apply(r *ref, o *opRec) bool {
+	switch o.kind {
+	case "reg":
+		r.register(o.t, o.prio, o.names)
+	case "unreg":
+		r.unregister(o.t)
+	case "merge":
+		r.merge(s.oref)
+	case "enable":
+		r.enabled = o.flag
+	case "reset":
+		r.reset()
+	case "enabled":
+		return o.boolRes == r.enabled
+	case "level":
+		return o.intRes == r.level
+	case "copyout":
+		return o.dumpRes == r.dump(false)
+	case "start", "end":
+		var want []int
+		if o.kind == "start" {
+			want = r.startBatch()
+		} else {
+			want = r.endBatch()
+		}
+		if len(want) != len(o.batches) {
+			return false
+		}
+		got := make([]int, 0, len(o.batches))
+		for _, b := range o.batches {
+			if b.start != (o.kind == "start") {
+				return false
+			}
+			got = append(got, b.t)
+		}
+		sort.Ints(got)
+		for i := range got {
+			if got[i] != want[i] {
+				return false
+			}
+		}
+	case "notify":
+		tg := r.notify(o.names[0])
+		if len(tg) != len(o.handles) || o.badData {
+			return false
+		}
+		nm := strings.Join(segs(o.names[0]), ".")
+		seen := map[int]bool{}
+		for i, h := range o.handles {
+			p, ok := tg[h.t]
+			if !ok || seen[h.t] || h.name != nm {
+				return false
+			}
+			seen[h.t] = true
+			if i > 0 && tg[o.handles[i-1].t] < p {
+				return false
+			}
+		}
+	}
+	return true
+}
+
+// linearize searches for one order of all calls that explains every observation and the final state; it returns the
+// reference state at the end of that order (nil: there is none).
+func (s *raceSys) linearize(start *ref, progs [][]*opRec, final string) *ref {
+	idx := make([]int, len(progs))
+	visited := map[string]bool{}
+	var found *ref
+	var dfs func(r *ref) bool
+	dfs = func(r *ref) bool {
+		done := true
+		for g := range progs {
+			if idx[g] < len(progs[g]) {
+				done = false
+			}
+		}
+		if done {
+			if r.dump(true) == final {
+				found = r
+				return true
+			}
+			return false
+		}
+		key := fmt.Sprint(idx) + r.dump(true)
+		if visited[key] {
+			return false
+		}
+		visited[key] = true
+		for g := range progs {
+			if idx[g] >= len(progs[g]) {
+				continue
+			}
+			a := progs[g][idx[g]]
+			ok := true
+			for h := range progs {
+				if h != g && idx[h] < len(progs[h]) && progs[h][idx[h]].ret < a.call {
+					ok = false // that call returned before this one was made: it must come first
+				}
+			}
+			if !ok {
+				continue
+			}
+			r2 := r.clone()
+			if !s.apply(r2, a) {
+				continue
+			}
+			idx[g]++
+			if dfs(r2) {
+				return true
+			}
+			idx[g]--
+		}
+		return false
+	}
+	dfs(start)
+	return found
 }
 
 func (raceArea) Run(line string) string {
@@ -62,29 +595,91 @@ func (raceArea) Run(line string) string {
 	}
 	seed, _ := strconv.ParseUint(f[1], 10, 64)
 	g := hx.Atoi(f[2])
-	iters := hx.Atoi(f[3])
-	var recs atomic.Int64
-	ns := []*notifier.Notifier{notifier.New(func(error) { recs.Add(1) }), notifier.New(func(error) { recs.Add(1) })}
-	plain := make([]*rTarget, 0, raceTargets)
-	ts := make([]notifier.Target, raceTargets)
-	for i := range ts {
-		if isBatch(i) {
-			b := &rBatchTarget{rTarget: rTarget{seen: make(map[uint64]int), boom: panics(i)}}
-			ts[i] = b
-			plain = append(plain, &b.rTarget)
-		} else {
-			p := &rTarget{seen: make(map[uint64]int), boom: panics(i)}
-			ts[i] = p
-			plain = append(plain, p)
-		}
+	rounds := hx.Atoi(f[3])
+	res := make(chan string, 1)
+	go func() { res <- raceRun(seed, g, rounds) }()
+	select {
+	case out := <-res:
+		return out
+	case <-time.After(60 * time.Second):
+		return "FAIL deadlock: the goroutines did not finish within 60s"
 	}
-	names := []string{"a", "a.b", "a.bc", "a.b.c", "b", "..a..b.", "foo.bar", "foo.barn", ""}
-	var next atomic.Uint64
+}
+
+func raceRun(seed uint64, g, rounds int) (out string) {
+	s := newRaceSys()
+	r := hx.NewRng(seed)
+	cur := newRef()
 	var escaped atomic.Int64
+	overlaps := 0
+	// ---- linearizability rounds
+	for round := 0; round < rounds; round++ {
+		if got := s.n.VerifDump(s.idOf); got != cur.dump(true) {
+			return fmt.Sprintf("FAIL round %d starts from %s, reference %s", round, got, cur.dump(true))
+		}
+		progs := make([][]*opRec, g)
+		for k := range progs {
+			for i, n := 0, r.Range(1, 3); i < n; i++ {
+				progs[k] = append(progs[k], genRaceOp(r))
+			}
+		}
+		var wg sync.WaitGroup
+		var ready atomic.Int64
+		for k := range progs {
+			wg.Add(1)
+			go func(p []*opRec) {
+				defer wg.Done()
+				defer func() {
+					if recover() != nil {
+						escaped.Add(1)
+					}
+				}()
+				ready.Add(1)
+				for ready.Load() < int64(len(progs)) { // spin: start together
+				}
+				for _, o := range p {
+					s.exec(o)
+				}
+			}(progs[k])
+		}
+		wg.Wait()
+		if escaped.Load() > 0 {
+			return fmt.Sprintf("FAIL round %d: a panic escaped the notifier", round)
+		}
+		final := s.n.VerifDump(s.idOf)
+		next := s.linearize(cur, progs, final)
+		if next == nil {
+			var sb strings.Builder
+			for k, p := range progs {
+				fmt.Fprintf(&sb, " g%d:", k)
+				for _, o := range p {
+					sb.WriteString(" " + o.String())
+				}
+			}
+			return fmt.Sprintf("FAIL round %d not linearizable: from %s;%s; final %s", round, cur.dump(true), sb.String(), final)
+		}
+		for a := range progs {
+			for b := range progs {
+				if a < b && progs[a][0].call < progs[b][len(progs[b])-1].ret && progs[b][0].call < progs[a][len(progs[a])-1].ret {
+					overlaps++
+				}
+			}
+		}
+		cur = next // the next round starts from the real state (the final dump was compared)
+	}
+	// ---- free-running phase with paired batches: balance of BatchMode(true)/(false) per target
+	s.n.SetEnabled(true)
+	for s.n.BatchLevel() > 0 {
+		s.exec(&opRec{kind: "end"})
+	}
+	for i := range s.w.trueCt {
+		s.w.trueCt[i].Store(0)
+		s.w.falseCt[i].Store(0)
+	}
 	var wg sync.WaitGroup
-	for k := 0; k < g; k++ {
+	for k := 0; k < g+1; k++ {
 		wg.Add(1)
-		r := hx.NewRng(seed*131 + uint64(k))
+		rr := hx.NewRng(seed*977 + uint64(k))
 		go func() {
 			defer wg.Done()
 			defer func() {
@@ -92,53 +687,52 @@ func (raceArea) Run(line string) string {
 					escaped.Add(1)
 				}
 			}()
-			for i := 0; i < iters; i++ {
-				n := ns[r.Intn(2)]
-				switch x := r.Intn(100); {
+			depth := 0
+			for i := 0; i < 400; i++ {
+				switch x := rr.Intn(100); {
 				case x < 25:
-					n.Register(ts[r.Intn(raceTargets)], r.Intn(4), hx.Pick(r, names), hx.Pick(r, names))
-				case x < 55:
-					n.NotifyWithData(hx.Pick(r, names), next.Add(1), n)
-				case x < 63:
-					n.Unregister(ts[r.Intn(raceTargets)])
-				case x < 71:
-					n.RegisterFromNotifier(ns[r.Intn(2)])
-				case x < 76:
-					n.SetEnabled(r.Intn(4) != 0)
-				case x < 78:
-					n.Reset()
-				case x < 85:
-					n.StartBatch()
-				case x < 92:
-					n.EndBatch()
-				case x < 96:
-					_ = n.Enabled()
+					s.exec(&opRec{kind: "reg", t: rr.Intn(raceTargets), prio: rr.Intn(3), names: []string{hx.Pick(rr, raceNames)}})
+				case x < 40:
+					s.exec(&opRec{kind: "unreg", t: rr.Intn(raceTargets)})
+				case x < 65:
+					s.exec(&opRec{kind: "notify", names: []string{hx.Pick(rr, raceNames)}, data: i})
+				case x < 82:
+					s.exec(&opRec{kind: "start"})
+					depth++
+				case x < 86:
+					s.exec(&opRec{kind: "merge"})
 				default:
-					_ = n.BatchLevel()
+					if depth > 0 {
+						s.exec(&opRec{kind: "end"})
+						depth--
+					}
 				}
+			}
+			for ; depth > 0; depth-- {
+				s.exec(&opRec{kind: "end"})
 			}
 		}()
 	}
-	done := make(chan struct{})
-	go func() { wg.Wait(); close(done) }()
-	select {
-	case <-done:
-	case <-time.After(60 * time.Second):
-		return "FAIL deadlock: goroutines did not finish within 60s"
-	}
-	var dups, calls int64
-	for _, p := range plain {
-		dups += p.dup.Load()
-		calls += p.calls.Load()
-	}
+	wg.Wait()
 	if escaped.Load() > 0 {
-		return fmt.Sprintf("FAIL %d panics escaped the notifier", escaped.Load())
+		return "FAIL a panic escaped the notifier"
 	}
-	if dups > 0 {
-		return fmt.Sprintf("FAIL %d notifications were delivered more than once to the same target", dups)
+	if l := s.n.BatchLevel(); l != 0 {
+		return fmt.Sprintf("FAIL batch level %d after all goroutines closed their batches", l)
 	}
-	if calls == 0 {
-		return "FAIL no notification delivered at all (stress did not exercise delivery)"
+	for i := range s.w.trueCt {
+		if a, b := s.w.trueCt[i].Load(), s.w.falseCt[i].Load(); a != b {
+			return fmt.Sprintf("FAIL target %d got BatchMode(true) %d times and BatchMode(false) %d times", i, a, b)
+		}
 	}
-	return "ok"
+	if d := s.w.dups.Load(); d > 0 {
+		return fmt.Sprintf("FAIL %d notifications were delivered more than once to the same target", d)
+	}
+	if st := s.w.stray.Load(); st > 0 {
+		return fmt.Sprintf("FAIL %d callbacks outside any call", st)
+	}
+	if a, b := s.w.recs.Load(), s.w.booms.Load(); a != b {
+		return fmt.Sprintf("FAIL %d panics but %d recovery reports", b, a)
+	}
+	return fmt.Sprintf("ok rounds=%d overlapping-pairs=%d", rounds, overlaps)
 }
